@@ -12,18 +12,22 @@ def run(tier, seed):
     rep = vlib.Report(PROP, tier, seed, "model_checking")
     binary = mx.build_driver()
     runs = [vlib.tlc_expect_ok("MCMux", "mux_C_timed.cfg"), vlib.tlc_expect_ok("MCMux", "mux_E_timed.cfg"), vlib.tlc_expect_ok("MCMux", "mux_E_safety.cfg"), vlib.tlc_expect_ok("MCMux", "mux_B_safety.cfg")]
+    # the session dying under the calls (AllowDown): everything still returns, nothing is acknowledged afterwards
+    runs += [vlib.tlc_expect_ok("MCMux", "mux_F_down_timed.cfg")]
     if tier == "thorough":
         runs += [vlib.tlc_expect_ok("MCMux", "mux_A_timed.cfg", timeout=3000),
-                 vlib.tlc_expect_ok("MCMux", "mux_B_timed.cfg", timeout=3000)]
+                 vlib.tlc_expect_ok("MCMux", "mux_B_timed.cfg", timeout=3000),
+                 vlib.tlc_expect_ok("MCMux", "mux_F_down_safety.cfg", timeout=3000)]
     # model sensitivity: the pre-fix expiry handler must wedge / strand a dial in the model
     vlib.tlc_expect_violation("MCMux", "mux_prefix_wedge.cfg", "NoWedge")
     vlib.tlc_expect_violation("MCMux", "mux_prefix_stuck.cfg", "NoStuckAtEnd")
     cov = rep.coverage
     if tier == "thorough":
         # vacuity: every action of the model is taken in some configuration (TWUnstick exists only before the fix)
-        cov["action_coverage"] = vlib.action_coverage("MCMux", ["mux_C_timed.cfg", "mux_E_timed.cfg", "mux_C_safety.cfg"], ignore=("TWUnstick",))
+        cov["action_coverage"] = vlib.action_coverage("MCMux", ["mux_C_timed.cfg", "mux_E_timed.cfg", "mux_C_safety.cfg", "mux_F_down_timed.cfg"], ignore=("TWUnstick",))
     n = {"quick": (90, 30, 30), "thorough": (900, 400, 600)}[tier]
     scs = mx.fam_histories(rng, n[0], maxlen=4) + mx.fam_random(rng, n[1]) + mx.tlc_graph_scripts(rng, n[2], cov)
+    scs += mx.fam_down(rng, 30 if tier == "quick" else 400)
     results, outdir = mx.run_driver(binary, scs)
     c = mx.classify_and_validate(rep, scs, results, outdir, PROP)
     cov["binding_selftest_mutations_rejected"] = mx.binding_selftest(outdir, scs)
@@ -37,7 +41,7 @@ def run(tier, seed):
         "traces_validated_against_impl": c["accepted"], "traces_recorded": c["traces"],
         "evaluations": len(scs), "distinct_nontrivial": sum(1 for s in scs if s.get("kinds") or s["fam"] != "hist"),
         "rule": "history = sequence of abusive elements (dial without accept, accept without dial, second dial to a pending id, "
-                "accept at the expiry instant / held across it, late peer, second dial parked after the take) on shared ids, followed by a fresh "
+                "accept at the expiry instant / held across it, late peer, second dial parked after the take, the connection cut under calls in flight) on shared ids, followed by a fresh "
                 "matched pair; plus random controlled schedules and TLC graph walks; distinct by seeded construction",
         "history_elements": kinds,
         "samples": [{k: s.get(k) for k in ("name", "fam", "kinds", "dials", "accepts", "holds")} for s in scs[:3]],
